@@ -146,6 +146,11 @@ func marshalUnknownValue(rng cty.ValueRange, path cty.Path, enc *msgpack.Encoder
 	return nil
 }
 
+// maxRefinedKnownListLen is the largest exact length refinement that we'll
+// accept for a non-null unknown list, because the result is a known list
+// with that number of elements.
+const maxRefinedKnownListLen = 1024
+
 func unmarshalUnknownValue(dec *msgpack.Decoder, ty cty.Type, path cty.Path) (ret cty.Value, err error) {
 	// The next item in the stream should be a msgpack extension value,
 	// which might be zero-length for a totally unknown value, or it might
@@ -219,6 +224,8 @@ func unmarshalUnknownValue(dec *msgpack.Decoder, ty cty.Type, path cty.Path) (re
 	}()
 
 	builder := cty.UnknownVal(ty).Refine()
+	notNull := false
+	minLen, maxLen := -1, -2 // distinct placeholders for "not set"
 	for i := 0; i < entryCount; i++ {
 		// Our refinement encoding format uses compact msgpack primitives to
 		// minimize the encoding size of refinements, which could otherwise
@@ -260,6 +267,7 @@ func unmarshalUnknownValue(dec *msgpack.Decoder, ty cty.Type, path cty.Path) (re
 				// refinement model.
 				builder = builder.Null()
 			} else {
+				notNull = true
 				builder = builder.NotNull()
 			}
 		case unknownValStringPrefix:
@@ -288,8 +296,10 @@ func unmarshalUnknownValue(dec *msgpack.Decoder, ty cty.Type, path cty.Path) (re
 			}
 			switch keyCode {
 			case unknownValLengthMin:
+				minLen = bound
 				builder = builder.CollectionLengthLowerBound(bound)
 			case unknownValLengthMax:
+				maxLen = bound
 				builder = builder.CollectionLengthUpperBound(bound)
 			default:
 				panic("unsupported keyCode") // should not get here
@@ -329,6 +339,15 @@ func unmarshalUnknownValue(dec *msgpack.Decoder, ty cty.Type, path cty.Path) (re
 	// map in case we want to pack something else in there later or in case
 	// a future version wants to use padding to optimize storage. Current
 	// encoders should not add any extra content there, though.
+
+	if ty.IsListType() && notNull && minLen == maxLen && minLen > maxRefinedKnownListLen {
+		// A non-null list of exactly known length becomes a known list of
+		// that many unknown elements, so a tiny refinement could otherwise
+		// make us allocate an arbitrarily large list. An encoder never
+		// writes such a refinement, because it would already have had the
+		// known list to serialize instead.
+		return cty.DynamicVal, path.NewErrorf("oversize exact list length refinement")
+	}
 
 	return builder.NewValue(), nil
 }
